@@ -20,8 +20,11 @@ from .tensor import Trace, tracing
 
 
 class Goal:
-    def __init__(self, label, node, hyps=(), signature=None, timeout=None, info=None):
+    def __init__(self, label, node, hyps=(), signature=None, timeout=None, info=None, alts=()):
         self.label = label
+        self.alts = list(alts)  # alternative formulations: the goal holds if any of them is proved
+        self.hyp_goals = []  # goals (earlier in the list) whose proved formulation is used as hypothesis
+        self.proved_node = None
         self.node = node  # boolean node to prove
         self.hyps = list(hyps)  # extra boolean hypothesis nodes (lemma instances)
         self.signature = signature or label
@@ -119,8 +122,23 @@ class Explorer:
                 varids = [V[n] for n in sorted(V)]
                 # ---- goals
                 for g in goals:
-                    st, r, text = prove(d, hyps + g.hyps, g.node, timeout=g.timeout or self.timeout,
+                    ghyps = hyps + g.hyps + [h.proved_node for h in g.hyp_goals if h.proved_node is not None]
+                    if any(h.proved_node is None for h in g.hyp_goals):
+                        out.unknown.append((g.label, f'{self.label} region {k}: a lemma it depends on was not proved',
+                                            dict(witness)))
+                        continue
+                    st, r, text = prove(d, ghyps, g.node, timeout=g.timeout or self.timeout,
                                         solvers=self.solvers, get_values=varids, tr=tr, label=g.label)
+                    if st == 'proved':
+                        g.proved_node = g.node
+                    for alt in g.alts:
+                        if st == 'proved':
+                            break
+                        st2, r2, _ = prove(d, ghyps, alt, timeout=g.timeout or self.timeout,
+                                           solvers=self.solvers, get_values=varids, tr=tr, label=g.label)
+                        if st2 == 'proved':
+                            st, r = st2, r2
+                            g.proved_node = alt
                     if st == 'proved':
                         out.proved += 1
                     elif st == 'refuted':
